@@ -546,10 +546,21 @@ class Effects:
         w = self.walks[q]
         s = self.summ[q]
         changed = False
+        # a lambda handed to a call (`checkraise(lambda: .., ..)`) may be run by the callee:
+        # the calls in its body count as calls made here (parameters of the lambda excluded)
+        sites = []
         for e in w.events:
             if e.kind != 'call':
                 continue
-            call = e.node
+            sites.append((e, e.node))
+            for a in list(e.node.args) + [k.value for k in e.node.keywords]:
+                if isinstance(a, ast.Lambda):
+                    lp = {x.arg for x in a.args.posonlyargs + a.args.args + a.args.kwonlyargs}
+                    for c in ast.walk(a.body):
+                        if isinstance(c, ast.Call) and not (
+                                {n.id for n in ast.walk(c) if isinstance(n, ast.Name)} & lp):
+                            sites.append((e, c))
+        for e, call in sites:
             fe = call.func
             targets = self.resolve(q, call)
             if targets:
@@ -584,6 +595,35 @@ class Effects:
                         s.global_sites.append((e.line, f'{src(call)[:100]} (callee {t.short})'))
                         changed = True
                     # return alias through callee handled in roots()
+                continue
+            # in-place operator functions: `operator.iconcat(a, b)` updates a;
+            # `functools.reduce(operator.iconcat, xs)` updates xs[0] (no initialiser) -- an
+            # element of the caller's collection -- or the initialiser
+            INPLACE = {'iconcat', 'iadd', 'ior', 'iand', 'isub', 'imul', 'ixor', 'extend',
+                       'update', '__iadd__', '__ior__'}
+            fname = src(fe).split('.')[-1]
+            victim = None
+            if fname in INPLACE - {'extend', 'update'} and src(fe).split('.')[0] in (
+                    'operator', 'op') and call.args:
+                victim = call.args[0]
+            if fname == 'reduce' and len(call.args) >= 2 and \
+                    src(call.args[0]).split('.')[-1] in INPLACE:
+                victim = call.args[2] if len(call.args) > 2 else call.args[1]
+            if victim is not None and not self._fresh_container(w, victim):
+                deep = fname == 'reduce' and len(call.args) == 2
+                reach = self.roots(q, victim, at=e.order)
+                if deep:
+                    reach = reach | self.contains(q, victim)
+                for r in reach:
+                    if r not in s.mut_params:
+                        changed = True
+                    s.mut_params.add(r)
+                    if deep and r not in s.mut_deep:
+                        s.mut_deep.add(r)
+                        changed = True
+                    site = (e.line, f'{src(call)[:100]} (in-place operator)')
+                    if site not in s.mut_sites.setdefault(r, []):
+                        s.mut_sites[r].append(site)
                 continue
             # unresolved: external function or method on unknown receiver
             if isinstance(fe, ast.Attribute):
@@ -654,20 +694,25 @@ class Effects:
                 if '<origin>' in self.roots(q, base, origin=origin):
                     out.append(src(e.stmt)[:100])
             elif e.kind == 'call':
-                fe = e.node.func
-                targets = self.resolve(q, e.node)
-                if targets:
-                    for t in targets:
-                        ts = self.summ.get(self.qual(t))
-                        if ts is None:
-                            continue
-                        for pname, arg in self.bind_args(t, e.node).items():
-                            if pname in ts.mut_params and hit(arg, pname in ts.mut_deep):
-                                out.append(f'{src(e.node)[:80]} (callee {t.short} modifies '
-                                           f'{pname})')
-                elif isinstance(fe, ast.Attribute) and fe.attr in MUTATORS and \
-                        '<origin>' in self.roots(q, fe.value, origin=origin):
-                    out.append(src(e.node)[:100])
+                # (calls in the body of a lambda handed to this call count as made here)
+                inner = [c for a in list(e.node.args) + [k.value for k in e.node.keywords]
+                         if isinstance(a, ast.Lambda) for c in ast.walk(a.body)
+                         if isinstance(c, ast.Call)]
+                for call in [e.node] + inner:
+                    fe = call.func
+                    targets = self.resolve(q, call)
+                    if targets:
+                        for t in targets:
+                            ts = self.summ.get(self.qual(t))
+                            if ts is None:
+                                continue
+                            for pname, arg in self.bind_args(t, call).items():
+                                if pname in ts.mut_params and hit(arg, pname in ts.mut_deep):
+                                    out.append(f'{src(call)[:80]} (callee {t.short} modifies '
+                                               f'{pname})')
+                    elif isinstance(fe, ast.Attribute) and fe.attr in MUTATORS and \
+                            '<origin>' in self.roots(q, fe.value, origin=origin):
+                        out.append(src(call)[:100])
         for name, ds in w.defs.items():
             for d in ds:
                 if d[0] == 'aug' and any(
